@@ -72,7 +72,49 @@ func callArgs(body ast.Node, callee string) []string {
 	return r
 }
 
+// forHeader returns "init; cond; post" of the first for statement in body.
+func forHeader(body ast.Node) string {
+	res := "unknown"
+	if body == nil {
+		return res
+	}
+	done := false
+	ast.Inspect(body, func(n ast.Node) bool {
+		if done {
+			return false
+		}
+		if f, ok := n.(*ast.ForStmt); ok {
+			part := func(x ast.Node) string {
+				if x == nil || (func() bool { v, ok := x.(ast.Stmt); return ok && v == nil })() {
+					return ""
+				}
+				return text(x)
+			}
+			var init, cond, post string
+			if f.Init != nil {
+				init = part(f.Init)
+			}
+			if f.Cond != nil {
+				cond = part(f.Cond)
+			}
+			if f.Post != nil {
+				post = part(f.Post)
+			}
+			res, done = init+"; "+cond+"; "+post, true
+			return false
+		}
+		return true
+	})
+	return res
+}
+
 func factsDedup() {
+	cf := parse("pkg/dedup/chunk_iter.go")
+	toChunk := body(fn(cf, "aggrChunkIterator", "toChunk"))
+	emitStr("aggrToChunkLoop", "pkg/dedup/chunk_iter.go aggrChunkIterator.toChunk: header of the sample loop", forHeader(toChunk))
+	emitStr("aggrToChunkEmptyTest", "pkg/dedup/chunk_iter.go aggrChunkIterator.toChunk: the 'no sample in the window' test", firstIfCond(toChunk, "lastT"))
+	emitList("aggrToChunkCounterArgs", "pkg/dedup/chunk_iter.go aggrChunkIterator.toChunk: samples appended outside the loop", callArgs(toChunk, "appender.Append"))
+
 	f := parse("pkg/dedup/iter.go")
 	next := body(fn(f, "dedupSeriesIterator", "Next"))
 	seek := body(fn(f, "dedupSeriesIterator", "Seek"))
